@@ -281,7 +281,7 @@ def mutate2(rng, b):
         b[i:i + 1] = bytes([255]) + (v & ((1 << 64) - 1)).to_bytes(8, "little")
     elif k == 7:   # medium form
         i = rng.randrange(len(b))
-        b[i:i + 1] = bytes([254]) + rng.choice([0, 1, len(b), 65535]).to_bytes(2, "little")
+        b[i:i + 1] = bytes([254]) + (rng.choice([0, 1, len(b), 65535]) & 0xffff).to_bytes(2, "little")
     else:          # outer size too large / too small
         b[0] = (b[0] + rng.choice([1, 2, 5, 100, 255])) & 0xff
     return bytes(b)
@@ -308,6 +308,9 @@ class Sources:
         self.tid_of = {name: tid for tid, name, x in tops}
         self.stats = {"go_random_values": 0, "tl1_values": 0, "fillrandom_failures_left_to_C18": 0, "budget_skips": 0, "model_enc1_none": 0}
         self.write_crashes = []     # (op line, result): WriteTL2 of a FillRandom value died
+        # number of boundary-size values to add (sizes at the edges of the 1/3/9-byte size forms)
+        self.boundary = boundary_budget(u)
+        self.boundary_kinds = {}
 
     def go_random(self, per_type):
         """[(tid, name, tl2 hex)] from FillRandom + WriteTL2"""
@@ -354,6 +357,12 @@ class Sources:
                             continue
                         lines.append(f"enc 0 {tid} {name} {boxed} | {vtext(sv)}")
                         self.stats["sparse_values"] = self.stats.get("sparse_values", 0) + 1
+        if self.boundary:
+            for tid, name, v, what in boundary_values(self.u.ins, self.tops, self.rng, self.boundary):
+                boxed = 1 if self.u.ins[tid]["kind"] == "union" else 0
+                lines.append(f"enc 0 {tid} {name} {boxed} | {vtext(v)}")
+                self.stats["boundary_values"] = self.stats.get("boundary_values", 0) + 1
+                self.boundary_kinds[what] = self.boundary_kinds.get(what, 0) + 1
         rc, out, err = run_lines(self.ref, [str(self.u.ir_path)], lines)
         res = []
         if rc != 0 or len(out) != len(lines):
@@ -612,6 +621,9 @@ def wide_schema(rng):
         lines.append(f"w.s{k} {' '.join(fs)} = w.S{k};")
         names.append(f"w.s{k}")
     lines.append("w.box items:(vector w.s0) last:w.s2 = w.Box;")
+    # carriers of boundary-size values: a string / vectors directly in a struct and one level deeper
+    lines.append("w.blob s:string v:(vector int) vs:(vector string) = w.Blob;")
+    lines.append("w.blobBox pad:int b:w.blob t:string = w.BlobBox;")
     return randschema.HEADER + "\n".join(lines) + "\n"
 
 
@@ -743,3 +755,293 @@ def tl2_origin_units(ctx, bins, n_rand):
         specs.append((f"rt{i}", [d / "s.tl2"]))
     with ThreadPoolExecutor(max_workers=8) as ex:
         return list(ex.map(lambda sp: Tl2OriginUnit(ctx, sp[0], sp[1], bins), specs))
+
+
+# --------------------------------------------------------------------------- boundary-size values
+# Sizes at the edges of the TL2 varlen size forms (1 byte < 254 <= 3 bytes < 254+65536 <= 9 bytes):
+# string lengths, array bodies and enclosing object bodies that land exactly on them.
+
+def size2_len(n):
+    return 1 if n < 254 else (3 if n < 254 + 65536 else 9)
+
+
+def boundary_budget(u):
+    """how many boundary values a unit gets: the `wide` unit (it has dedicated carrier types) and the
+    repository corpus get some, random units a few"""
+    return {"wide": 20, "cases": 4, "goldmaster": 3}.get(u.name, 2)
+
+
+def leaf_paths(ins, tid, max_levels=3):
+    """paths from instance [tid] through unmasked, parameter-free struct fields (aliases are
+    transparent in TL2) to a string or a vector of int/long/string.
+    -> [(steps, leaf)], steps = [(struct tid, field index, is_alias)], leaf in str|vec4|vec8|vecstr"""
+    res = []
+
+    def go(t, steps, levels):
+        x = ins[t]
+        if x["kind"] == "prim":
+            if x["name"] == "string" and steps:
+                res.append((list(steps), "str"))
+            return
+        if x["kind"] == "array" and not x.get("isTuple") and steps:
+            e = ins[x["elem"]["type"]]
+            while e["kind"] == "struct" and e.get("isAlias"):
+                e = ins[e["fields"][0]["type"]]
+            if e["kind"] == "prim" and not x["elem"].get("natArgs"):
+                leaf = {"int32": "vec4", "uint32": "vec4", "int64": "vec8", "string": "vecstr"}.get(e["name"])
+                if leaf and ins[x["elem"]["type"]]["kind"] == "prim":
+                    res.append((list(steps), leaf))
+            return
+        if x["kind"] != "struct" or x.get("natParams") or x.get("isUnionElement") or x.get("isFunction"):
+            return
+        alias = bool(x.get("isAlias"))
+        if not alias and levels >= max_levels:
+            return
+        for i, f in enumerate(x["fields"]):
+            if f.get("mask") is None and not f.get("natArgs") and len(res) < 12:
+                go(f["type"], steps + [(t, i, alias)], levels + (0 if alias else 1))
+
+    go(tid, [], 0)
+    return res
+
+
+def default_is_empty(ins, tid, depth=0):
+    """is the TL2 encoding of the default value of [tid] as a non-optional field empty (0 bytes)?
+    Only fixed-size tuples with elements are always written."""
+    x = ins[tid]
+    if depth > 40:
+        return False
+    if x["kind"] == "struct":
+        return all(f.get("mask") is not None or default_is_empty(ins, f["type"], depth + 1) for f in x["fields"])
+    if x["kind"] == "union":
+        return default_is_empty(ins, x["variants"][0], depth + 1)
+    if x["kind"] == "array":
+        return not (x.get("isTuple") and not x.get("dynamicSize") and x.get("count", 0) > 0)
+    return True
+
+
+def clean_levels(ins, steps):
+    """number of enclosing (non-alias) structs, counted from the inside, all of whose other
+    non-optional fields are empty by default: their body sizes can be computed exactly"""
+    n = 0
+    for t, i, alias in reversed(steps):
+        if alias:
+            continue
+        x = ins[t]
+        if all(j == i or f.get("mask") is not None or default_is_empty(ins, f["type"]) for j, f in enumerate(x["fields"])):
+            n += 1
+        else:
+            break
+    return n
+
+
+def _with_leaf(ins, tid, steps, leafv):
+    """default value of [tid] with the value at the end of [steps] replaced"""
+    v = default_value(ins, tid)
+    if not steps:
+        return leafv
+    (t, i, alias), rest = steps[0], steps[1:]
+    fs = list(v[1])
+    fs[i] = _with_leaf(ins, ins[t]["fields"][i]["type"], rest, leafv)
+    return ("S", fs)
+
+
+def _solve_len(levels, m, target):
+    """string length L such that the size number at nesting level m is [target]: level 0 = the
+    string length itself, level k = body size of the k-th enclosing (non-alias) struct, counted from
+    the inside; [levels][k-1] = number of presence-block bytes that struct writes.  None if impossible."""
+    sz = target
+    for k in range(m, 0, -1):
+        nb = levels[k - 1]
+        for sl in (1, 3, 9):
+            inner = sz - nb - sl
+            if inner >= 1 and size2_len(inner) == sl:
+                sz = inner
+                break
+        else:
+            return None
+    return sz
+
+
+def boundary_values(ins, tops, rng, budget):
+    """[(tid, name, value, what)]: at most [budget] values with boundary sizes"""
+    cands = []
+    for tid, name, x in tops:
+        if x["kind"] != "struct":
+            continue
+        try:
+            default_value(ins, tid)
+        except (Budget, RecursionError):
+            continue
+        for steps, leaf in leaf_paths(ins, tid):
+            nlev = clean_levels(ins, steps)      # enclosing sizes we can aim at exactly
+            cands.append((nlev, tid, name, steps, leaf))
+    if not cands:
+        return []
+    out = []
+
+    def add(tid, name, steps, leafv, what):
+        if len(out) < budget:
+            try:
+                out.append((tid, name, _with_leaf(ins, tid, steps, leafv), what))
+            except (Budget, RecursionError):
+                pass
+
+    def sval(n):
+        return ("s", bytes((i * 7 + 65) & 0x7f or 66 for i in range(n)))
+
+    must = [65790, 65536, 254, 253, 65789, 65791, 65535]
+    rest = [252, 255, 256, 65533, 65534, 65537, 65787, 65788, 65792]
+    # arrays whose body size lands on the boundaries
+    vecs = [c for c in cands if c[4] != "str"]
+    rng.shuffle(vecs)
+    seen = set()
+    for nlev, tid, name, steps, leaf in vecs:
+        if leaf in seen:
+            continue
+        seen.add(leaf)
+        if leaf == "vecstr":
+            for L, body in ((65786, 65790), (65532, 65536), (252, 254)):
+                add(tid, name, steps, ("A", [sval(L)]), f"vector-of-string:body={body}")
+        else:
+            w = 4 if leaf == "vec4" else 8
+            counts = [16447, 16383, rng.choice([63, 64, 16446])] if w == 4 else [8223, 8191, rng.choice([31, 32, 8224])]
+            for n in counts:
+                body = size2_len(n) + w * n
+                add(tid, name, steps, ("A", [("n", (i * 2654435761) & 0xffffffff) for i in range(n)]), f"vector-of-{w}-byte:body={body}")
+    # strings: the length itself, and the body sizes of the enclosing structs
+    strs = [c for c in cands if c[4] == "str"]
+    rng.shuffle(strs)
+    strs.sort(key=lambda c: -c[0])        # deepest first: more enclosing sizes to aim at
+    for k, (nlev, tid, name, steps, leaf) in enumerate(strs[:2]):
+        levels = [(i + 1) // 8 + 1 for (t, i, alias) in reversed(steps) if not alias]
+        for m in range(min(nlev, 2), -1, -1):
+            if m == 0:
+                targets = (must + [rng.choice(rest)]) if k == 0 else [rng.choice(rest)]
+            else:
+                targets = must[:3] if k == 0 else must[:2]
+            for target in targets:
+                L = _solve_len(levels, m, target)
+                if L is not None:
+                    add(tid, name, steps, sval(L), f"string-in-struct:size-level-{m}={target}")
+    return out
+
+
+# --------------------------------------------------------------------------- C11: TL2 leg
+
+def c11_tl2_leg(ctx, n_rand=None):
+    """C11 (wire formats match an independent reference codec), TL2 projection: the extracted Tl2
+    reference model against freshly generated Go code on random TL2-enabled schemas (plus the
+    generated `wide` schema with the boundary-size carriers).
+      writer: TL1 wire values (type-directed, sparse, boundary-size) -> Go ReadTL1 + WriteTL2 must give the
+              bytes the reference writes (enc2 of dec1), and FillRandom values written by Go must be
+              re-written identically by the reference after reading them;
+      reader: those TL2 bytes, 9-byte-size re-encodings of them and byte mutations: verdict, consumed
+              length and canonical rewrite of Go's ReadTL2 must equal the reference's.
+    Returns (ops, results, violations): ops = [(unit, op line, kind)], results = [(reference, go)],
+    violations = [{"sig": "C11:tl2:<kind>...", "what", "data", "no_input"}] (nothing is reported to ctx)."""
+    quick = ctx.quick()
+    n_rand = n_rand if n_rand is not None else (3 if quick else 30)
+    ops, results, viol = [], [], []
+
+    def v(sig, what, data, no_input=False):
+        if len(viol) < 40:
+            viol.append({"sig": sig, "what": what, "data": data, "no_input": no_input})
+
+    with Lock():
+        try:
+            ref = build_refmodel(FAMILY)
+        except RuntimeError as e:
+            v("C11:tl2:model-build", "Tl2 reference model does not build: " + trunc(str(e), 400), {"error": str(e)}, True)
+            return ops, results, viol
+    bins, berr = build_tools(ctx.scratch)
+    if berr:
+        v("C11:tl2:tools", "cannot build tl2gen/verifdump: " + trunc(berr, 400), {"error": berr}, True)
+        return ops, results, viol
+    specs = [(f"c11tl2_{sp[0]}",) + tuple(sp[1:]) for sp in accepted_random_specs(ctx, n_rand, bins)]
+    w = wide_spec(ctx)
+    units = prepare_units(ctx, specs + [w], bins, driver_files=DRIVER_FILES)
+    for u in units:
+        if u.ins is not None and u.ir_path is not None:
+            write_ir2_file(u.ins, u.ir_path)
+    lock = threading.Lock()
+    rngs = {u.name: random.Random(ctx.rng.getrandbits(64)) for u in units}
+    nval = 4 if quick else 30
+
+    def work(u):
+        rng = rngs[u.name]
+        if u.kernel_rejected:
+            return
+        if u.error or not u.gen:
+            if u.name == "wide" or not str(u.error).startswith(("go build:", "tl2gen:")):
+                with lock:
+                    v(f"C11:tl2:unit:{u.name}", f"schema unit {u.name}: {trunc(u.error, 400)}", {"unit": u.name, "error": u.error}, True)
+            return
+        tops = unit_tops(u)
+        mv = ModelView(u, ref)
+        src = Sources(u, tops, rng, ref)
+        if u.name != "wide":
+            src.boundary = 6
+        uops, ures, uv = [], [], []
+        tv, e = src.tl1_values(nval)
+        if e:
+            uv.append((f"C11:tl2:unit:{u.name}", f"{u.name}: {e}", {"unit": u.name, "error": e}, True))
+        # writer
+        cl = [f"conv {int(bool(u.san))} {tid} {name} {boxed} {h}" for tid, name, boxed, h in (tv or [])]
+        cg = run_lines_resilient(u.gen.exe, [], cl, timeout=900)
+        cm, e = model_run(ref, mv, cl, 2)
+        if e:
+            uv.append((f"C11:tl2:unit:{u.name}", f"{u.name}: {e}", {"unit": u.name, "error": e}, True))
+            cm = [None] * len(cl)
+        valid = []
+        for l, g, m in zip(cl, cg, cm):
+            f = l.split(" ")
+            uops.append((u.name, l, "writer:tl1-value"))
+            ures.append((m, g))
+            if g.startswith(("panic", "crash")):
+                uv.append((f"C11:tl2:panic:{f[3]}", f"{u.name}: generated code panics: {trunc(l, 140)} -> {trunc(g, 160)}", {"unit": u.name, "op": l, "go": g}, False))
+            elif m is not None and g.split(" ")[:3] != m.split(" ")[:3]:
+                uv.append((f"C11:tl2:writer:{f[3]}", f"{u.name}: TL2 bytes written by Go differ from the reference: {trunc(l, 140)}: reference={trunc(m, 100)} go={trunc(g, 100)}",
+                           {"unit": u.name, "op": l, "model": m, "go": g}, False))
+            gf = g.split(" ")
+            if g.startswith("ok ") and len(gf) == 4:
+                valid.append((int(f[2]), f[3], gf[2], "tl1-value"))
+        valid += [(tid, name, h, "go-random") for tid, name, h in src.go_random(nval)]
+        for l, o in src.write_crashes:
+            uv.append((f"C11:tl2:panic:{l.split(' ')[1]}", f"{u.name}: WriteTL2 of a FillRandom value died: {l} -> {trunc(o, 160)}", {"unit": u.name, "op": l, "go": o}, False))
+        # reader
+        rl = [(f"rw2 {tid} {name} {h}", "reader:" + kind) for tid, name, h, kind in valid]
+        re_l = [f"reenc {tid} {name} {3 * rng.getrandbits(20)} {h}" for tid, name, h, kind in valid if mv.covers(tid)]
+        ro, e = model_run(ref, mv, re_l, 1)
+        for l, o in zip(re_l, ro or []):
+            f, g = l.split(" "), (o or "").split(" ")
+            if o and o.startswith("ok ") and len(g) == 3:
+                rl.append((f"rw2 {f[1]} {f[2]} {g[1]}", "reader:all-sizes-9-byte"))
+        for tid, name, h, kind in valid:
+            b = bytes.fromhex(h) if h != "-" else b""
+            if len(b) < 5000:
+                rl.append((f"rw2 {tid} {name} {mutate2(rng, b).hex() or '-'}", "reader:mutated"))
+        lines = [x[0] for x in rl]
+        go = run_lines_resilient(u.gen.exe, [], lines, timeout=900)
+        mo, e = model_run(ref, mv, lines, 1)
+        if e:
+            uv.append((f"C11:tl2:unit:{u.name}", f"{u.name}: {e}", {"unit": u.name, "error": e}, True))
+            mo = [None] * len(lines)
+        for (l, kind), g, m in zip(rl, go, mo):
+            f = l.split(" ")
+            uops.append((u.name, l, kind))
+            ures.append((m, g))
+            if g.startswith(("panic", "crash")):
+                uv.append((crash_sig("C11:tl2", mv, u, f[1], f[2], g), f"{u.name}: generated code panics: {trunc(l, 140)} -> {trunc(g, 160)}", {"unit": u.name, "op": l, "go": g}, False))
+            elif m is not None and m != g:
+                uv.append((f"C11:tl2:{kind.split(':')[0]}:{f[2]}", f"{u.name}: Go ReadTL2/WriteTL2 and the reference differ ({kind}): {trunc(l, 140)}: reference={trunc(m, 100)} go={trunc(g, 100)}",
+                           {"unit": u.name, "op": l, "model": m, "go": g}, False))
+        with lock:
+            ops.extend(uops)
+            results.extend(ures)
+            for sig, what, data, ni in uv:
+                v(sig, what, data, ni)
+
+    with ThreadPoolExecutor(max_workers=8) as ex:
+        list(ex.map(work, units))
+    return ops, results, viol
